@@ -410,6 +410,11 @@ static __always_inline int parse_packet_headers(struct xdp_md *ctx,
 	if (pkt->ip->protocol != IPPROTO_UDP)
 		return -1;
 
+	/* A header length below 5 words is not a valid IPv4 header: the UDP
+	 * header would be read from (and the reply written over) the IP header */
+	if (pkt->ip->ihl < 5)
+		return -1;
+
 	/* Parse UDP header (account for IP header length) */
 	pkt->udp = (void *)pkt->ip + (pkt->ip->ihl * 4);
 	if ((void *)(pkt->udp + 1) > data_end)
@@ -701,6 +706,15 @@ int dhcp_fastpath_prog(struct xdp_md *ctx) {
 		return XDP_PASS;
 	}
 
+	/* The reply options need MAX_DHCP_REPLY_OPTIONS_LEN bytes of options area.
+	 * Check BEFORE touching the frame: a request that is handed to userspace
+	 * must be handed over unmodified (a minimum-size BOOTP request carries
+	 * only 60 bytes of options). */
+	if ((void *)pkt.dhcp->options + MAX_DHCP_REPLY_OPTIONS_LEN > pkt.data_end) {
+		update_stat(STAT_FASTPATH_MISS);
+		return XDP_PASS;
+	}
+
 	/* CACHE HIT - Fast path! Generate reply in kernel */
 	update_stat(STAT_FASTPATH_HIT);
 
@@ -765,15 +779,17 @@ int dhcp_fastpath_prog(struct xdp_md *ctx) {
 	__builtin_memset(pkt.dhcp->sname, 0, sizeof(pkt.dhcp->sname));
 	__builtin_memset(pkt.dhcp->file, 0, sizeof(pkt.dhcp->file));
 
-	/* Build DHCP options */
-	CHECK_BOUNDS_PASS(pkt.dhcp->options, pkt.data_end, MAX_DHCP_REPLY_OPTIONS_LEN);
+	/* Build DHCP options (room was verified before the headers were rewritten;
+	 * the check is repeated for the verifier).  From here on the frame is a
+	 * half-built reply and must never be passed up the stack. */
+	CHECK_BOUNDS_DROP(pkt.dhcp->options, pkt.data_end, MAX_DHCP_REPLY_OPTIONS_LEN);
 
 	int opt_len = build_dhcp_options(pkt.dhcp->options, pkt.data_end,
 	                                  reply_type, pool, assignment,
 	                                  server_ip);
 	if (opt_len < 0) {
 		update_stat(STAT_ERROR);
-		return XDP_PASS;
+		return XDP_DROP;
 	}
 
 	/* Calculate total packet size */
@@ -800,7 +816,7 @@ int dhcp_fastpath_prog(struct xdp_md *ctx) {
 	if (delta != 0) {
 		if (bpf_xdp_adjust_tail(ctx, delta) != 0) {
 			update_stat(STAT_ERROR);
-			return XDP_PASS;
+			return XDP_DROP;
 		}
 		/* Note: After adjust_tail, packet pointers are invalidated.
 		 * We've already written all header fields, so we can proceed
